@@ -259,11 +259,15 @@ fn body(which: Which, slots: usize) -> impl Fn(&Ch) -> Run + Sync + Send {
     let mut run = Run::default();
     let g = gen_package(ch, slots);
     let dep_is_root = ch.choose("root_imports_dependency_package_too", 2) == 1;
-    let Some(r) = fast_check_rooted(&[g.pkg.clone(), g.dep.clone()], if dep_is_root { 2 } else { 1 }, None, ch) else {
+    // history: build with the first entrypoint only, fast check, then a second
+    // build on the same graph brings in the rest and fast check runs again
+    let two_steps = (g.pkg.exports.len() > 1 || dep_is_root) && ch.flag("second_build_and_second_fast_check_pass");
+    let root_idx: Vec<usize> = if dep_is_root { vec![0, 1] } else { vec![0] };
+    let Some(r) = fast_check_steps(&[g.pkg.clone(), g.dep.clone()], &root_idx, None, ch, deno_graph::GraphKind::All, two_steps) else {
       run.violate("build-did-not-finish", "deadlock", json!({}));
       return run;
     };
-    let case = |extra: Value| json!({"package": g.pkg.files.iter().map(|(p, s)| json!([p, s])).collect::<Vec<_>>(), "exports": g.pkg.exports, "workspace_member": g.pkg.workspace, "declarations": g.decl_names, "references": g.ref_names, "detail": extra});
+    let case = |extra: Value| json!({"package": g.pkg.files.iter().map(|(p, s)| json!([p, s])).collect::<Vec<_>>(), "exports": g.pkg.exports, "workspace_member": g.pkg.workspace, "built_and_fast_checked_in_two_steps": two_steps, "declarations": g.decl_names, "references": g.ref_names, "detail": extra});
     if !r.graph_errors.is_empty() {
       run.violate("generated-package-does-not-build", format!("{:?}", r.graph_errors), case(json!({})));
       return run;
@@ -273,7 +277,7 @@ fn body(which: Which, slots: usize) -> impl Fn(&Ch) -> Run + Sync + Send {
     check_result(which, &r, &entrypoints, &g.unused_markers, &mut run, &case);
     let with_output = r.modules.values().filter(|(_, s)| matches!(s, FcSlot::Module { .. })).count();
     let with_diag = r.modules.values().filter(|(_, s)| matches!(s, FcSlot::Diagnostics(_))).count();
-    run.state_key = hash_of(&format!("{:?}{:?}{}", g.pkg.files, g.pkg.exports, g.pkg.workspace));
+    run.state_key = hash_of(&format!("{:?}{:?}{}{}", g.pkg.files, g.pkg.exports, g.pkg.workspace, two_steps));
     run.nontrivial = with_output > 0 && g.decl_names.len() >= 2;
     run.outcome_key = hash_of(&format!("{:?}", r.modules.values().map(|(_, s)| match s { FcSlot::Module { text, .. } => hash_of(text), FcSlot::Diagnostics(d) => hash_of(d), FcSlot::None => 0 }).collect::<Vec<_>>()));
     run.count("packages_with_output", (with_output > 0) as u64);
@@ -384,6 +388,7 @@ pub fn prop(which: Which, tier: Tier) -> Prop {
       "emitted text is re-parsed with the same swc parser the subject uses (common-mode risk); the source-map decoder and the export / signature extractors are the harness's own".into(),
       "deviation-bounded from the package with a single annotated declaration".into(),
       "@s/a is published to the registry or (one deviation) a local workspace member analysed with WorkspaceFastCheckOption::Enabled; fast_check_dts is off".into(),
+      "wherever there is more than one thing for the root program to import, both histories are explored: one build + one pass, and: the graph is built and fast-checked with the first entrypoint only, then a second build on the same graph adds the other entrypoints / the dependency package and fast check runs again; the oracles apply to the final state".into(),
       "packages whose public API cannot be made explicit get diagnostics instead of output and are then only counted".into(),
     ],
     parts: vec![
